@@ -25,6 +25,14 @@ type BusFaults struct {
 }
 
 type SimBus struct {
+	// Expect: topic -> nodes that are meant to be listening on it. A message for
+	// such a node that finds no subscription there is still reported to OnDeliver
+	// (at the time it would have arrived), so that a reference model fed by
+	// OnDeliver does not simply agree with a node that listens on the wrong topic.
+	Expect map[string][]string
+	// Prefix: what RedisPeerManagement.ClusterName is to the Redis pubsub - every
+	// endpoint's FormatTopic puts it in front of the topic
+	Prefix string
 	mu     sync.Mutex
 	drv    *Driver
 	out    *Outcome
@@ -44,7 +52,7 @@ func NewSimBus(drv *Driver, out *Outcome, seed uint64) *SimBus {
 }
 
 func (b *SimBus) Endpoint(node string) *SimPubSub {
-	ep := &SimPubSub{bus: b, node: node}
+	ep := &SimPubSub{bus: b, node: node, Prefix: b.Prefix}
 	b.mu.Lock()
 	b.eps = append(b.eps, ep)
 	b.mu.Unlock()
@@ -77,9 +85,30 @@ func (b *SimBus) publish(from, topic, msg string) {
 		}
 	}
 	fromCut := b.cut[from]
+	var phantoms []string
+	for _, node := range b.Expect[topic] {
+		found := false
+		for _, s := range targets {
+			if s.ep.node == node {
+				found = true
+			}
+		}
+		if !found && !fromCut {
+			phantoms = append(phantoms, node)
+		}
+	}
 	b.mu.Unlock()
 	if b.OnPublish != nil {
 		b.OnPublish(from, topic, msg)
+	}
+	for _, node := range phantoms {
+		node := node
+		b.drv.AtAbs(time.Now(), "pubsub", fmt.Sprintf("pubsub/%s/%s/%d->%s/nobody", from, topic, seq, node), func() {
+			b.out.Probe("message_for_a_node_not_listening_on_its_topic")
+			if b.OnDeliver != nil {
+				b.OnDeliver(node, topic, msg)
+			}
+		})
 	}
 	for _, s := range targets {
 		s := s
@@ -135,7 +164,25 @@ func (b *SimBus) DeliverNow(from, topic, msg string) (ids []int64, dones []chan 
 			}
 		}
 	}
+	var phantoms []string
+	for _, node := range b.Expect[topic] {
+		found := false
+		for _, s := range targets {
+			if s.ep.node == node {
+				found = true
+			}
+		}
+		if !found && !b.cut[node] {
+			phantoms = append(phantoms, node)
+		}
+	}
 	b.mu.Unlock()
+	for _, node := range phantoms {
+		b.out.Probe("message_for_a_node_not_listening_on_its_topic")
+		if b.OnDeliver != nil {
+			b.OnDeliver(node, topic, msg)
+		}
+	}
 	for _, s := range targets {
 		s := s
 		if b.OnDeliver != nil {
